@@ -1,6 +1,7 @@
 import Lean.Data.Json
 import Pko.Model.Panic
 import Pko.Model.TreeConfig
+import Pko.Model.Include
 /-! Scenario format, model printer and property monitor of the C19 line driver (kept in a library
 module without `main` so that `Pko.Props.C19` can state theorems about them).  One scenario format, `fn` selects the function under test.
 `model` prints what the model of the (fixed) Go code returns, in the format of the Go harnesses
@@ -57,6 +58,8 @@ structure Scn where
   expr : Option Json := none
   imgs : Option Json := none
   cli : Option CliScn := none
+  prog : Option (List (List Int)) := none   -- tmpl: template t<i> = sequence of -1 (emit) / n ≥ 0 (include t<n>)
+  entry : Option (List Int) := none         -- tmpl: the body of the executed template file
   deriving FromJson
 
 partial def toJVal : Json → JVal
@@ -259,6 +262,17 @@ def modelOut (s : Scn) : Out :=
     match s.cli.bind cliIn with
     | none => .bad "cli"
     | some i => treeOut i
+  | "tmpl" =>
+    -- templates executed by the real RenderTemplates: `Pko.Model.Include` (the include counter)
+    let instr : Int → Pko.Model.Include.Instr := fun i => if i < 0 then .emit else .incl i.toNat
+    -- (an empty list is omitted by the Go encoder)
+    let pr := (s.prog.getD []).map (·.map instr)
+    match Pko.Model.Include.run pr Pko.Model.Include.recursionDepth
+        (Pko.Model.Include.renderBudget pr Pko.Model.Include.recursionDepth) (fun _ => 0) ((s.entry.getD []).map instr) with
+    | .ok _ n => .ok (toString n)        -- number of marks the execution emitted
+    | .guard => .err                     -- ErrExceededIncludeRecursion
+    | .noTemplate => .err                -- no such template
+    | .fuel => .bad "include-model-out-of-fuel"   -- impossible: C19Include.render_never_out_of_fuel
   | "copySourceItemX" | "relaxedX" | "renderX" | "structureX" | "importX" | "probeX" | "celX" | "cliX" | "tmplX" => .nopanic
   | _ => .bad "fn"
 
